@@ -263,6 +263,31 @@ def lock_fns():
     return out
 
 
+def cb_tables():
+    """content_blocking.rs: the escaped character class and the resource-type flag table"""
+    try:
+        src = read("content_blocking.rs")
+    except Exception:
+        return "", []
+    m = re.search(r'SPECIAL_CHARS: Lazy<Regex> =\s*Lazy::new\(\|\| Regex::new\(r##"\(\[(.*?)\]\)"##\)', src, re.S)
+    special = ""
+    if m:
+        cls = m.group(1)
+        # un-escape the regex character class: `\x` stands for x
+        i = 0
+        while i < len(cls):
+            if cls[i] == "\\" and i + 1 < len(cls):
+                special += cls[i + 1]
+                i += 2
+            else:
+                special += cls[i]
+                i += 1
+    flags = []
+    for fm in re.finditer(r"push_if_flag!\((\w+)(?:, (\w+))?\);", src):
+        flags.append((fm.group(1), fm.group(2) or ""))
+    return special, flags
+
+
 def main():
     net = read("filters/network.rs")
     req = read("request.rs")
@@ -327,6 +352,13 @@ def main():
     L.append("/-- every HashMap/HashSet field of a `Serialize` struct of the wire format with its `serialize_with` -/")
     L.append("def hashContainerFields : List (String × String × String × String) := [" + ", ".join(
         f"({lean_str(a)}, {lean_str(b)}, {lean_str(c)}, {lean_str(d)})" for a, b, c, d in ser) + "]")
+    special, cbflags = cb_tables()
+    L.append("")
+    L.append("/-- content_blocking.rs: characters of `SPECIAL_CHARS` (escaped with a backslash in url-filter) -/")
+    L.append(f"def cbSpecialChars : String := {lean_str(special)}")
+    L.append("def cbSpecialCharList : List Char := [" + ", ".join("'\\\\'" if c == "\\" else ("'\\''" if c == "'" else f"'{c}'") for c in special) + "]")
+    L.append("/-- content_blocking.rs: `push_if_flag!` table: request-type flag, Safari resource type (empty = unsupported) -/")
+    L.append("def cbTypeFlags : List (Nat × String) := [" + ", ".join(f"({a}, {lean_str(b)})" for a, b in cbflags) + "]")
     L.append("")
     L.append("/-- every struct field of an interior-mutability type, every `static`, `thread_local!` and `unsafe impl` of the library: (file, container, name, type) -/")
     L.append("def sharedCells : List (String × String × String × String) := [" + ", ".join(
